@@ -271,27 +271,68 @@ theorem Fr.of_set (s : St) (x : Src) (hs : s.ok = true) (hr : DestWF s.r) (hx : 
   have h := mpf_set_frame s x hs hr hx
   exact ⟨h.1, h.2.1, h.2.2.1, h.2.2.2.1, h.2.2.2.2.1, h.2.2.2.2.2⟩
 
-theorem mpf_add_frame (s : St) (us vs : Src) (hs : s.ok = true) (hr : DestWF s.r)
-    (hu : OpndWF (s.obj us)) (hv : OpndWF (s.obj vs)) (s' : St) (h : mpf_add 0 s us vs = some s') : Fr s s' := by
+theorem subMag_prec (prec : Nat) (n : Bool) (u v : Mpf.F) : (Mpf.subMag prec n u v).prec = prec := by
+  unfold Mpf.subMag; rfl
+
+/-- the store-level mirror of the equal-sign path of sub.c: the operands are read inside their limbs, `F.d` is stored at
+    rp[0, |F.d|) — inside the PREC + 1 limbs when `F` is well formed for PREC (r) — and the header is F's -/
+theorem subStore_spec (s : St) (us vs : Src) (F : Mpf.F) (hs : s.ok = true) (hr : DestWF s.r)
+    (hu : OpndWF (s.obj us)) (hv : OpndWF (s.obj vs)) (hF : Mpf.WF F) (hFp : F.prec = s.r.prec) :
+    Fr s (subStore s us vs F) ∧ (subStore s us vs F).r.view = F := by
+  obtain ⟨hrb, hra⟩ := hr
+  unfold subStore
+  have A := rd_spec s us 0 (s.obj us).size.natAbs hs (by have := hu.2; omega)
+  simp only [A.1]
+  have Bv := rd_spec s vs 0 (s.obj vs).size.natAbs hs (by have := hv.2; omega)
+  simp only [Bv.1]
+  have hlen : F.d.length ≤ s.r.prec + 1 := by rw [hF.2.1, ← hFp]; exact hF.2.2.1
+  obtain ⟨a1, a2, a3, _, a4, _, _, a7, a8, a9⟩ := wrR_spec (s.tmpAlloc (s.r.prec + 1)) 0 F.d hs hrb
+    (by show 0 + F.d.length ≤ s.r.blk.alloc; omega)
+  refine ⟨Fr.setSE (s0 := s) ⟨a1, a2, a3, a4, a7, a8⟩ _ _, ?_⟩
+  have t := take_write0 (s.tmpAlloc (s.r.prec + 1)).r.blk.limbs F.d
+  simp only [FObj.view, St.setSE, a4, a9, ← hF.2.1, t]
+  cases F
+  simp only at hFp
+  simp [St.tmpAlloc, hFp]
+
+theorem sign_flip {a b : Int} (ha : a ≠ 0) (hb : b ≠ 0) (h : (decide (a < 0) != decide (b < 0)) = true) :
+    (a < 0) ↔ (-b < 0) := by
+  by_cases h1 : a < 0 <;> by_cases h2 : b < 0 <;> simp [h1, h2] at h ⊢ <;> omega
+
+theorem sign_same {a b : Int} (h : ¬ (decide (a < 0) != decide (b < 0)) = true) : (a < 0) ↔ (b < 0) := by
+  by_cases h1 : a < 0 <;> by_cases h2 : b < 0 <;> simp [h1, h2] at h ⊢
+
+theorem mpf_add_frame (s : St) (us vs : Src) (hs : s.ok = true) (hr : DestWF s.r) (hp : 2 ≤ s.r.prec)
+    (hu : OpndWF (s.obj us)) (hv : OpndWF (s.obj vs)) (hou : Mpf.OpWF (s.obj us).view) (hov : Mpf.OpWF (s.obj vs).view)
+    (s' : St) (h : mpf_add 0 s us vs = some s') : Fr s s' := by
   unfold mpf_add at h
   simp only at h
-  split at h
-  · cases h
+  by_cases hu0 : (s.obj us).size = 0
+  · rw [if_pos hu0] at h
+    cases h
     split
     · exact Fr.of_set s vs hs hr hv
     · exact ⟨hs, rfl, rfl, rfl, rfl, hr.1⟩
-  · split at h
-    · cases h
+  · rw [if_neg hu0] at h
+    by_cases hv0 : (s.obj vs).size = 0
+    · rw [if_pos hv0] at h
+      cases h
       split
       · exact Fr.of_set s us hs hr hu
       · exact ⟨hs, rfl, rfl, rfl, rfl, hr.1⟩
-    · split at h
-      · cases h
-      · cases h
+    · rw [if_neg hv0] at h
+      by_cases hsg : (decide ((s.obj us).size < 0) != decide ((s.obj vs).size < 0)) = true
+      · rw [if_pos hsg] at h
+        cases h
+        exact (subStore_spec s us vs _ hs hr hu hv
+          (Mpf.subMag_spec s.r.prec hp (s.obj us).view _ hou (Mpf.OpWF_neg_size _ hov) hu0 (by simpa [FObj.view] using hv0)
+            (sign_flip hu0 hv0 hsg)).1 (subMag_prec _ _ _ _)).1
+      · rw [if_neg hsg] at h
+        cases h
         by_cases sw : (s.obj us).exp < (s.obj vs).exp
-        · simp only [sw, decide_true, if_true]
+        · simp only [sw, if_true]
           exact addSameSign_safe s _ vs us hs hr hv hu (by omega)
-        · simp only [sw, decide_false, Bool.false_eq_true, if_false]
+        · simp only [sw, if_false]
           exact addSameSign_safe s _ us vs hs hr hu hv (by omega)
 
 /-- rshift path: the high n limbs stored at rp[1, n], then the low limb at rp[0] -/
@@ -646,5 +687,41 @@ theorem addSameSign_view (s : St) (negate : Bool) (us vs : Src) (hs : s.ok = tru
     · simp [htl]
     · simp [htl]
 
+
+/-- mpf_neg (r, u) and mpf_neg (r, r) (mpf/neg.c) -/
+theorem mpf_neg_spec (s : St) (x : Src) (hs : s.ok = true) (hr : DestWF s.r) (hx : OpndWF (s.obj x)) :
+    Fr s (mpf_neg s x) ∧ (mpf_neg s x).r.view = Mpf.neg s.r.prec (decide (x = .r)) (s.obj x).view := by
+  obtain ⟨hrb, hra⟩ := hr
+  obtain ⟨hxb, hxa⟩ := hx
+  unfold mpf_neg Mpf.neg
+  by_cases hx : x = .r
+  · subst hx
+    simp only [if_true, decide_true]
+    exact ⟨⟨hs, rfl, rfl, rfl, rfl, hrb⟩, by simp [FObj.view, St.setSE, St.obj]⟩
+  · simp only [hx, if_false, decide_false, Bool.false_eq_true]
+    have hxl : (s.obj x).size.natAbs ≤ (s.obj x).blk.limbs.length := by rw [hxb]; exact hxa
+    rw [Int.natAbs_neg]
+    generalize hasz : (s.obj x).size.natAbs = asize at hxl hxa
+    generalize hp1 : s.r.prec + 1 = p1 at hra
+    have hsel := sel_top (s.obj x).blk.limbs asize p1 hxl
+    generalize hoff : (if asize > p1 then asize - p1 else 0) = off at hsel
+    generalize hn : (if asize > p1 then p1 else asize) = n at hsel
+    have hb1 : off + n ≤ (s.obj x).blk.alloc := by subst hoff hn; split <;> omega
+    have hb2 : n ≤ s.r.blk.alloc := by subst hn; split <;> omega
+    generalize hsz : (if -(s.obj x).size ≥ 0 then (n : Int) else -(n : Int)) = sz
+    have hszn : sz.natAbs = n := by subst hsz; split <;> omega
+    have C := copyToR_spec (s.setSE sz (s.obj x).exp) x off n hs hrb (by rw [obj_setSE_blk]; exact hxb)
+      (by rw [obj_setSE_blk]; exact hb1) hb2
+    rw [obj_setSE_blk] at C
+    obtain ⟨c1, c2, c3, c4, c5, c6, c7, c8, c9⟩ := C
+    refine ⟨⟨c1, c2, c3, c4, c7, c8⟩, ?_⟩
+    have hlen : (Mpf.top p1 (List.take asize (s.obj x).blk.limbs)).length = n := by
+      have := hxb; unfold BlkWF at this
+      rw [← hsel, List.length_take, List.length_drop]; omega
+    have g1 : (s.setSE sz (s.obj x).exp).r.size = sz := rfl
+    have g2 : (s.setSE sz (s.obj x).exp).r.exp = (s.obj x).exp := rfl
+    have g3 : (s.setSE sz (s.obj x).exp).r.prec = s.r.prec := rfl
+    simp only [FObj.view, c4, c5, c6, g1, g2, g3, hszn, c9, hsel, hasz, hlen]
+    rw [← hsz]
 
 end Mpir.AllocSafe7
